@@ -17,16 +17,18 @@ TagsFirst == [g |-> "g", t |-> "t"]
 
 CONSTANT Size
 
-VARIABLES a, b
+\* One state per value a; vp (the pool) is kept in the state because TLC
+\* re-evaluates a definition at every use; each invariant quantifies over
+\* the second value b, so every ordered pair is checked.
+VARIABLES a, vp
 
-\* one initial state per pair (the LET makes TLC build the pool once)
-Init == LET vp == ValuePool(Size) IN a \in vp /\ b \in vp
-Next == UNCHANGED <<a, b>>
+Init == vp = ValuePool(Size) /\ a \in vp
+Next == UNCHANGED <<a, vp>>
 
-Cex(law) == PrintT("CEX " \o ToJson([law |-> law, a |-> a, b |-> b]))
-Check(law, ok) == ok \/ ~Cex(law)
+Cex(law, b) == PrintT("CEX " \o ToJson([law |-> law, a |-> a, b |-> b]))
+Check(law, b, ok) == ok \/ ~Cex(law, b)
 
-InvPairs  == Check("InvPairs", PairLaws(a, b))
-InvTruth  == Check("InvTruth", TruthTableLaw(b))
-InvTextFn == Check("InvTextFn", TextFunctionLaw(b))
+InvPairs  == \A b \in vp : Check("InvPairs", b, PairLaws(a, b))
+InvTruth  == Check("InvTruth", a, TruthTableLaw(a))
+InvTextFn == Check("InvTextFn", a, TextFunctionLaw(a))
 =============================================================================
